@@ -81,6 +81,7 @@ inline void ConcurrentTransientTopic<T, S>::publish_n(size_t num,
 #endif // ABSL_HAVE_THREAD_SANITIZER
     for (auto iter = begin; iter != end; ++iter) {
       iter->futex.set_published();
+      BABYLON_VERIF_POINT("topic:set_published_loop");
     }
     ::std::atomic_thread_fence(::std::memory_order_seq_cst);
     BABYLON_VERIF_POINT("topic:published_before_wake");
